@@ -48,11 +48,13 @@ type Feat struct {
 	ChunkMin     int  `json:"chunk_min"`
 	// the first k cross-repository mount requests are declined, later ones granted (a mount policy that depends on the blob / the moment)
 	MountRefuseFirst int `json:"mount_refuse_first,omitempty"`
+	// manifest requests are answered by content negotiation on the Accept header (distribution, olareg)
+	Accept bool `json:"accept,omitempty"`
 }
 
 func (f Feat) Features() rm.Features {
 	return rm.Features{MountGrant: f.MountGrant, AnonMountStatus: f.AnonMount, HeadNoDigest: f.HeadNoDigest, Referrers: f.Referrers,
-		ReferrersPage: f.RefPage, TagPage: f.TagPage, TagDelete: f.TagDelete, ValidateManifest: f.Validate, LocStyle: f.LocStyle, ChunkMin: f.ChunkMin, MountRefuseFirst: f.MountRefuseFirst}
+		ReferrersPage: f.RefPage, TagPage: f.TagPage, TagDelete: f.TagDelete, ValidateManifest: f.Validate, LocStyle: f.LocStyle, ChunkMin: f.ChunkMin, MountRefuseFirst: f.MountRefuseFirst, HonourAccept: f.Accept}
 }
 
 // Pre is the pre-existing target state.
@@ -156,6 +158,7 @@ func genFeat(t *rapid.T, label string) Feat {
 	if f.MountGrant && rapid.IntRange(0, 3).Draw(t, label+"_mrf") == 0 {
 		f.MountRefuseFirst = rapid.IntRange(1, 3).Draw(t, label+"_mrfk")
 	}
+	f.Accept = rapid.IntRange(0, 2).Draw(t, label+"_accept") == 0
 	return f
 }
 
